@@ -1,4 +1,5 @@
 import Dia.AcceptThm
+import Dia.AcceptNI
 /-! # C10 - One misbehaving connection cannot disturb the others. Property theorems only.
 The listener is the labelled transition system of `Dia/Accept.lean`; a schedule is any list of labels (peers
 arriving, sending anything, the accept loop, handshakes completing or failing or never completing, connection tasks
@@ -46,6 +47,14 @@ theorem C10_frame (cfg : Cfg) (s s' : St) (l : Label) (c : Nat) (h : step cfg s 
       · cases h
       · rename_i it rest hin
         cases it <;> (cases h; simp [upd, hne])
+
+/-- **non-interference over whole schedules.** For every schedule - any number of other connections doing anything
+at all, interleaved in any way - connection `c` ends in exactly the state (phase, unread input, consumed input,
+answers written) that it reaches when the schedule is stripped of everything that does not concern `c`. -/
+theorem C10_noninterference (cfg : Cfg) (hinl : cfg.inline = false) (c : Nat) (ls : List Label) (s : St)
+    (h : run cfg {} ls = some s) :
+    ∃ s', run cfg {} (ls.filter (fun l => l.conn = c)) = some s' ∧ s.proj c = s'.proj c :=
+  noninterference cfg hinl c ls {} {} s rfl rfl rfl h
 
 /-- **answers are routed to their own connection, exactly once, in order.** In every reachable state, what has been
 written to connection `c` is exactly one answer per request that `c`'s own peer sent and `c`'s task consumed, in
